@@ -8,12 +8,19 @@ TARGETS = ["theories/Properties/C12.v"]
 KNOWN_KINDS = {"outage-on-block-path", "outage-request-path-block-arrives"}
 TRUSTED = [
     "Coq 8.16.1 kernel; no axioms",
-    "Reach.v is a hand-written protocol model of carrier.rs (hang_until_bitcoind_reachable, flag_bitcoind_unreachable, retry recursion), "
-    "chain_monitor.rs (poll_best_tip: flag + notify_all after a successful poll, flag false on a transient error) and internal.rs "
-    "(check_service_unavailable); tied to the code by comparing its predicted outcome class with what the real threads do in every scenario",
+    "ConcReach.v: hand-written thread-level model of carrier.rs (hang_until_bitcoind_reachable, flag_bitcoind_unreachable, the retry "
+    "recursion of send_transaction / in_mempool, memo written after a verdict), chain_monitor.rs (poll_best_tip: flag + notify_all after an Ok poll, "
+    "flag false on a transient error of the tip look-up; LDK's SpvClient keeps the tip reached when a download fails and still returns Ok) and "
+    "internal.rs (check_service_unavailable), on top of ConcTower.v's thread programs (guard lifetimes read off the source); tied to the code by "
+    "replaying every scenario on the extracted model under the same oracle / schedule class and comparing, per thread, the sequence of requests on "
+    "the wire (kind, transaction up to renaming by first appearance, answered / transport error) and the locks kept at each condition-variable "
+    "wait, and which threads are stuck at the end. Reach.v (the abstract protocol machine) predicts the outcome class",
+    "that a thread that makes a request again after a transport error is not answered from the memo instead is argued from the carrier lock "
+    "(ConcTower's lock_protects_data), not re-proved at the thread level: the theorem allows 'answered from the memo' after an error",
     "harness/src/bin/outage + pollworld.rs: real ChainMonitor + LDK SpvClient over a simulated block source, real tower, the chain monitor in its own "
-    "thread and every API request in a worker thread; hook H3 (teos/src/verif_sync.rs) reports waits and lock requests, so 'blocked' is read from the "
-    "wait state after the process has made no lock event for 60 ms (a time-out is only the fallback)",
+    "thread and every API request in a worker thread; hook H3 (teos/src/verif_sync.rs) reports waits and lock requests, so 'blocked for good' is "
+    "read from the wait-for graph (waiting on the condition variable with the flag false; asking for a lock whose holder is blocked for good), a "
+    "10 s time-out is only the fallback; monitor_chain itself is driven once with a stalling download (1 s polling interval, real time)",
     "extraction (ExtrOcamlBasic) + drv_outage.ml",
     "real-thread timing, tokio, std Mutex/Condvar semantics: observed, not proved; 'eventually' is proved over abstract poll events only",
 ]
@@ -47,13 +54,25 @@ def run(ctx):
                 cov["scenarios_where_the_outage_hit_an_rpc"] = summ["outage_hit"]
                 cov["availability_probes_while_known_down"] = summ["probes"]
                 cov["outcome_classes"] = summ.get("classes", "")
+                cov["scenarios_replayed_on_the_thread_level_model"] = summ.get("replayed", 0)
+                cov["per_thread_wire_logs_checked_by_retry_ok"] = summ.get("wire_logs", 0)
+                cov["transport_errors_on_the_wire"] = summ.get("wire_errors", 0)
+                cov["waits_compared_with_the_model"] = summ.get("waits", 0)
+                cov["blocks_handed_to_listeners_checked_exactly_once"] = summ.get("blocks", 0)
+                if not summ.get("replayed", 0) or not summ.get("wire_errors", 0):
+                    ctx.broken.append({"kind": "correspondence", "what": "no scenario was replayed on the thread-level model / no transport error "
+                                       "was seen on the wire: the tie of C12_same_transaction_retried is empty", "detail": str(summ)})
                 cov["exhaustive"] = True
                 cov["rule"] = ("five base scenarios (breach handled while processing a block; late appointment answered on an API thread; reorg "
                                "re-announcement; stale rebroadcast; 4-block poll with a failed block download at each position) x outage at each of the "
                                "first 6 node RPCs after the marked point x k in {0,2} (thorough {0,1,2,3}) further failing polls x a block mined during the "
                                "outage or not, each next to its fault-free twin; observations: which thread waits for what, replies of probes sent while "
                                "the tower knows the node is down, whether the tower recovers with the node back and two polls, final tables vs the twin, "
-                               "last_known_block vs tip. non-trivial = the outage actually hit an RPC")
+                               "last_known_block vs tip; per thread: the node's wire log (requests incl. those that hit the transport error) checked by "
+                               "Coq's retry_ok and compared with the replay on ConcReach, the locks kept at each wait (hook H3) compared with the replay. "
+                               "plus monitor_chain ITSELF (1 s polling interval) over a 4-block backlog with a download that stalls 1.7 s (thorough: at each "
+                               "position) next to its twin; every scenario: the blocks handed to the real listeners are consecutive (Coq's `consecutive`). "
+                               "non-trivial = the outage actually hit an RPC")
                 with open(out_f) as f:
                     ls = f.read().splitlines()
                 cov["samples"] = [l[:600] for l in ls if " 0 0 0 |" in l][:3]
@@ -64,7 +83,7 @@ def run(ctx):
                         continue
                     kind, detail, field, mo, im, case = m.groups()
                     if kind == "corr":
-                        ctx.broken.append({"kind": "correspondence", "what": "the reachability model predicts another outcome than the real threads show",
+                        ctx.broken.append({"kind": "correspondence", "what": f"the reachability model and the real threads disagree on {field}",
                                            "model": mo, "impl": im, "case": case})
                     else:
                         k = detail.split(":")[0]
